@@ -24,7 +24,7 @@ def levels(tier):
         {"name": "n2-wide", "n": 2, "alphabet": ["links", "we", "addprefix", "batch", "delwe"], "links_batch": 1, "batch_targets": 1,
          "defaults": ["never", "domain"]},
         {"name": "tpl-n3", "n": 3, "prelude": [["links", [[1, 3], [1, 3], [3, 1], [2, 2], [1, 2]]], ["page", 1, True], ["we", [[0, 3]]]],
-         "alphabet": ["we", "addprefix", "links"], "links_batch": 1, "defaults": ["never"]},
+         "alphabet": ["we", "links"], "links_batch": 1, "defaults": ["never"]},
         {"name": "n3", "n": 3, "alphabet": ["links", "we", "addprefix"], "links_batch": 1, "defaults": ["never"], "pool": [POOL4[0], POOL4[1], POOL4[3]]},
     ]
 
